@@ -2,5 +2,5 @@ SPECIFICATION Spec
 CONSTANTS MaxText = 70
           MaxAad = 20
           MaxIV = 5
-INVARIANTS ZeroAadLemma SealAgrees RoundTrip OpenAgrees LanesAreInc
+INVARIANTS ZeroIvLemma ZeroAadLemma SealAgrees RoundTrip OpenAgrees LanesAreInc
 CHECK_DEADLOCK FALSE
